@@ -20,7 +20,11 @@ STANDIN = """#!/usr/bin/env python3
 import json, os, sys
 with open(os.environ["STANDIN_LOG"], "a") as f:
     f.write(json.dumps(sys.argv[1:]) + "\\n")
-sys.exit(int(os.environ.get("STANDIN_STATUS", "0")))
+st = int(os.environ.get("STANDIN_STATUS", "0"))
+if st >= 128:
+    # a formatter that dies from a signal (crash, OOM killer, timeout wrapper)
+    os.kill(os.getpid(), st - 128)
+sys.exit(st)
 """
 FILTER_ARGS = {"rs": [], "src": ["-f", "src/.*"], "none": ["-f", "nomatch_[0-9]"]}
 
@@ -182,7 +186,7 @@ def run(tier, seed, replay=None):
 
         def one(t):
             n, j = t
-            status = [0, 0, 1, 3][n % 4]
+            status = [0, 0, 1, 3, 0, 137, 0, 134][n % 8]
             o = run_tool(tool, standin, d, n, j["text"], j["p"], j["flt"], status)
             o["exp"] = j["exp"]
             return o
